@@ -13,7 +13,7 @@ func init() {
 		ID: "C09",
 		Explanation: "Decides structural necessary conditions of C09: (R-C09-1) in db.DB.GetConditional the not-modified answer is returned exactly on the true edge of (active read).Version == oldVersion, and on the other edge the value returned is that same read result; (R-C09-2) the active read looks the bytes up under secret.ActiveVersion and reports that same number (never a non-active version, never one version's number with another's bytes); " +
 			"(R-C09-3) server dispatch: GetConditional is called only under Version != 0 and UpdateIfChanged with (identity, name, version) of the request, GetVersion under Version != 0 and not UpdateIfChanged, Get under Version == 0 (the flag is ignored for V = 0); (R-C09-4) Client.GetIfChanged delegates to Get for oldVersion == 0 and otherwise posts GetRequest{Name, Version: oldVersion, UpdateIfChanged: true} to /api/get; " +
-			"(R-C09-5) FileClient.GetIfChanged answers ErrNotFound for an absent name, ErrValueNotChanged exactly on stored.Version == oldVersion, else the stored value, and never stores version 0; (R-C09-6) the 304/403/404 round trip is R-C08-4.",
+			"(R-C09-5) FileClient.GetIfChanged answers ErrNotFound for an absent name, ErrValueNotChanged exactly on stored.Version == oldVersion, else the stored value, and never stores version 0; (R-C09-6) the 304/403/404 round trip is R-C08-4. (R-C09-7) reads of the store write nothing (C02's R-C02-1) and a failed activation is rolled back (C04's R-C04-3): what the conditional get compares with is the one record of the active version.",
 		NotDecided:  "The iff over histories of put/activate/delete interleaved with conditional gets.",
 		Trusted:     commonTrusted,
 		Assumptions: []string{},
@@ -231,6 +231,11 @@ func runC09(c *eng.Ctx, tier string) {
 	c09FileClient(c)
 	// version 0 is never stored by the file-backed client (so V = 0 always yields the value): the loader's guards of R-C13-4
 	include(c, "R-C09-5", func(sc *eng.Ctx) { c13Wire(sc) })
+	// R-C09-7: what the conditional get compares with is the store's one record
+	// of the active version: reads write nothing (no remembered answers), and a
+	// failed activation is rolled back (C02's effect table, C04's rollback rule)
+	includeOnly(c, "R-C09-7", func(sc *eng.Ctx) { runC02(sc, "quick") }, "R-C02-1")
+	includeOnly(c, "R-C09-7", func(sc *eng.Ctx) { runC04(sc, "quick") }, "R-C04-3")
 }
 
 func c09Server(c *eng.Ctx, d *dbInfo) {
